@@ -151,4 +151,96 @@ theorem no_cut_inside : ∀ (ts : List ℝ) (lo : ℝ), (lo :: ts).Pairwise (· 
         linarith
       · exact hlater t (List.mem_cons.mpr ht)
 
+
+theorem intervals_le : ∀ (ts : List ℝ) (lo : ℝ), (lo :: ts).Pairwise (· ≤ ·) → (∀ t ∈ lo :: ts, t ≤ 1) →
+    ∀ iv ∈ intervals lo ts, iv.1 ≤ iv.2 ∧ lo ≤ iv.1 ∧ iv.2 ≤ 1 := by
+  intro ts
+  induction ts with
+  | nil =>
+    intro lo _ hb iv hiv
+    simp only [intervals, List.mem_singleton] at hiv
+    subst hiv
+    exact ⟨hb lo (by simp), le_refl _, le_refl _⟩
+  | cons x xs ih =>
+    intro lo hp hb iv hiv
+    rw [List.pairwise_cons] at hp
+    simp only [intervals, List.mem_cons] at hiv
+    rcases hiv with rfl | hiv
+    · exact ⟨hp.1 x (by simp), le_refl _, hb x (by simp)⟩
+    · obtain ⟨h1, h2, h3⟩ := ih x hp.2 (fun t ht => hb t (List.mem_cons_of_mem _ ht)) iv hiv
+      exact ⟨h1, le_trans (hp.1 x (by simp)) h2, h3⟩
+
+theorem forall₂_imp_mem {α β : Type} {R R' : α → β → Prop} {l1 : List α} {l2 : List β}
+    (h : List.Forall₂ R l1 l2) (himp : ∀ a b, b ∈ l2 → R a b → R' a b) : List.Forall₂ R' l1 l2 := by
+  induction h with
+  | nil => exact List.Forall₂.nil
+  | cons hab _ ih =>
+    refine List.Forall₂.cons (himp _ _ (by simp) hab) (ih ?_)
+    intro a b hb hr
+    exact himp a b (List.mem_cons_of_mem _ hb) hr
+
+/-- **the pieces of a segment cut at a sorted list that contains every simple root of x′ and y′ in [0.01, 0.99]**: a piece is
+    monotone (or antitone) in x on the whole of [0, 1] unless a simple root of x′ lies strictly inside its parameter interval —
+    and such a root can only lie in the first or last 1 % of the original segment.  Same for y. -/
+theorem pieces_monotone (s : Seg ℝ) (ts : List ℝ) (hsorted : ts.Pairwise (· ≤ ·)) (hb : ∀ t ∈ ts, 0 ≤ t ∧ t ≤ 1)
+    (hns : NoSkip ts)
+    (hall : ∀ e, (1 : ℝ) / 100 ≤ e → e ≤ 99 / 100 → (SRx s e ∨ SRy s e) → e ∈ ts) :
+    List.Forall₂ (fun (piece : Seg ℝ) (iv : ℝ × ℝ) =>
+        ((∀ e, iv.1 < e → e < iv.2 → (e < 1 / 100 ∨ 99 / 100 < e) → ¬ SRx s e) → MonoOrAnti (fun t => (piece.eval t).x) (Icc 0 1)) ∧
+        ((∀ e, iv.1 < e → e < iv.2 → (e < 1 / 100 ∨ 99 / 100 < e) → ¬ SRy s e) → MonoOrAnti (fun t => (piece.eval t).y) (Icc 0 1)))
+      (cutSeg s ts) (intervals 0 ts) := by
+  have hp0 : ((0 : ℝ) :: ts).Pairwise (· ≤ ·) := List.pairwise_cons.mpr ⟨fun t ht => (hb t ht).1, hsorted⟩
+  have hb1 : ∀ t ∈ (0 : ℝ) :: ts, t ≤ 1 := by
+    intro t ht; rcases List.mem_cons.mp ht with rfl | ht
+    · norm_num
+    · exact (hb t ht).2
+  refine forall₂_imp_mem (cutSeg_retrace s ts hns) ?_
+  intro piece iv hiv hev
+  have hle := (intervals_le ts 0 hp0 hb1 iv hiv).1
+  have hnocut := no_cut_inside ts 0 hp0 iv hiv
+  constructor
+  · intro hno
+    apply monoOrAnti_reparam (fun t => (s.eval t).x) (fun t => (piece.eval t).x) iv.1 iv.2 hle (fun t => by simp only [hev t])
+    apply monotone_between _ _ _ _ iv.1 iv.2 (hasDeriv_x s)
+    intro e e1 e2 hs
+    by_cases hband : (1 : ℝ) / 100 ≤ e ∧ e ≤ 99 / 100
+    · exact hnocut e (List.mem_cons_of_mem _ (hall e hband.1 hband.2 (Or.inl hs))) ⟨e1, e2⟩
+    · have : e < 1 / 100 ∨ 99 / 100 < e := by
+        by_contra hc; push Not at hc; exact hband ⟨hc.1, hc.2⟩
+      exact hno e e1 e2 this hs
+  · intro hno
+    apply monoOrAnti_reparam (fun t => (s.eval t).y) (fun t => (piece.eval t).y) iv.1 iv.2 hle (fun t => by simp only [hev t])
+    apply monotone_between _ _ _ _ iv.1 iv.2 (hasDeriv_y s)
+    intro e e1 e2 hs
+    by_cases hband : (1 : ℝ) / 100 ≤ e ∧ e ≤ 99 / 100
+    · exact hnocut e (List.mem_cons_of_mem _ (hall e hband.1 hband.2 (Or.inr hs))) ⟨e1, e2⟩
+    · have : e < 1 / 100 ∨ 99 / 100 < e := by
+        by_contra hc; push Not at hc; exact hband ⟨hc.1, hc.2⟩
+      exact hno e e1 e2 this hs
+
+/-- the extremes reported for any segment lie in [0.01, 0.99] -/
+theorem extremes_in_band (s : Seg ℝ) (t : ℝ) (ht : t ∈ extremes Real.sqrt s) : (1 : ℝ) / 100 ≤ t ∧ t ≤ 99 / 100 := by
+  cases s with
+  | line a b => simp [extremes] at ht
+  | quad a b c => simp only [extremes] at ht; exact ((quad_findDRoots_mem _ _ _ _ _ _ t).mp ht).2
+  | cubic a b c d => simp only [extremes] at ht; exact ((cubic_extremes_mem_iff a b c d t).mp ht).1
+
+/-- **C03, monotonicity after `addExtremes`** (one segment of the path; `splitAtPoints` cuts it at `sort (extremes s)`): provided no
+    cut is skipped by the 1e-8 duplicate test, every resulting piece is monotone or antitone in x — and in y — on [0, 1], except
+    possibly when a simple root of that coordinate's derivative lies in the first or last 1 % of the original segment and strictly
+    inside the piece's parameter interval. -/
+theorem addExtremes_monotone (s : Seg ℝ) (hns : NoSkip (sort (extremes Real.sqrt s))) :
+    List.Forall₂ (fun (piece : Seg ℝ) (iv : ℝ × ℝ) =>
+        ((∀ e, iv.1 < e → e < iv.2 → (e < 1 / 100 ∨ 99 / 100 < e) → ¬ SRx s e) → MonoOrAnti (fun t => (piece.eval t).x) (Icc 0 1)) ∧
+        ((∀ e, iv.1 < e → e < iv.2 → (e < 1 / 100 ∨ 99 / 100 < e) → ¬ SRy s e) → MonoOrAnti (fun t => (piece.eval t).y) (Icc 0 1)))
+      (cutSeg s (sort (extremes Real.sqrt s))) (intervals 0 (sort (extremes Real.sqrt s))) := by
+  apply pieces_monotone s _ (sort_sorted _) _ hns
+  · intro e e1 e2 hs
+    rw [mem_sort]
+    exact band_mem s e e1 e2 hs
+  · intro t ht
+    rw [mem_sort] at ht
+    have := extremes_in_band s t ht
+    constructor <;> linarith [this.1, this.2]
+
 end C03M
